@@ -61,6 +61,16 @@ def check_ellipsoid(t, a, f, gm, w, cls, fexact=None):
         t.fail("C16|normal-gravity|not-finite|%s" % cls, dict(case, ge=ge, gp=gp))
         return
     ge, gp = float(ge), float(gp)
+    # the same body through the WGS class (the README's recipe for other planets): the same ellipsoid
+    t.calls += 1
+    ow = core.outcome(lambda: (lambda W: (float(W.b), float(W.first_eccentricity_squared), float(W.equatorial_normal_gravity), float(W.polar_normal_gravity),
+                                          float(W.normal_gravity(38.5, 0.001 * a))))(WGS(a=a, f=f, GM=gm, w=w)))
+    if ow[0] != "ok":
+        t.fail("C16|WGS(a, f, GM, w)|raises-%s|%s" % (ow[1], cls), dict(case, err=ow[2]))
+    else:
+        want_w = (float(E.b), float(E.first_eccentricity_squared), ge, gp, float(E.normal_gravity(38.5, 0.001 * a)))
+        if not all(abs(x - y) <= 1e-15 * max(abs(y), 1e-300) for x, y in zip(ow[1], want_w)):
+            t.fail("C16|WGS(a, f, GM, w)|differs-from-ReferenceEllipsoid|%s" % cls, dict(case, wgs=ow[1], reference_ellipsoid=want_w))
     g0 = gm / (a * a)
     # Pizzetti: 2 ge/a + gp/b = 3 GM/(a^2 b) - 2 w^2   (relative to the size of its terms)
     lhs = 2 * ge / a + gp / b
